@@ -377,10 +377,18 @@ where
             {
                 v
             } else {
-                let (_, v) = shard_write
-                    .raw_entry_mut()
-                    .from_key_hashed_nocheck(hash, key)
-                    .or_insert_with(|| (key.clone(), self.storage.counter(key)));
+                // File the new entry under the same hash lookups use (`Hashable::hashable`), and rehash with it
+                // on resize: `or_insert_with` would rehash the key with the map's own hasher, which is a
+                // different value for any `K` whose `Hashable::Hasher` is not `RegistryHasher`.
+                let (_, v) = match shard_write.raw_entry_mut().from_key_hashed_nocheck(hash, key) {
+                    RawEntryMut::Occupied(entry) => entry.into_key_value(),
+                    RawEntryMut::Vacant(entry) => entry.insert_with_hasher(
+                        hash,
+                        key.clone(),
+                        self.storage.counter(key),
+                        |k| k.hashable(),
+                    ),
+                };
 
                 v
             };
@@ -415,10 +423,18 @@ where
             {
                 v
             } else {
-                let (_, v) = shard_write
-                    .raw_entry_mut()
-                    .from_key_hashed_nocheck(hash, key)
-                    .or_insert_with(|| (key.clone(), self.storage.gauge(key)));
+                // File the new entry under the same hash lookups use (`Hashable::hashable`), and rehash with it
+                // on resize: `or_insert_with` would rehash the key with the map's own hasher, which is a
+                // different value for any `K` whose `Hashable::Hasher` is not `RegistryHasher`.
+                let (_, v) = match shard_write.raw_entry_mut().from_key_hashed_nocheck(hash, key) {
+                    RawEntryMut::Occupied(entry) => entry.into_key_value(),
+                    RawEntryMut::Vacant(entry) => entry.insert_with_hasher(
+                        hash,
+                        key.clone(),
+                        self.storage.gauge(key),
+                        |k| k.hashable(),
+                    ),
+                };
 
                 v
             };
@@ -453,10 +469,18 @@ where
             {
                 v
             } else {
-                let (_, v) = shard_write
-                    .raw_entry_mut()
-                    .from_key_hashed_nocheck(hash, key)
-                    .or_insert_with(|| (key.clone(), self.storage.histogram(key)));
+                // File the new entry under the same hash lookups use (`Hashable::hashable`), and rehash with it
+                // on resize: `or_insert_with` would rehash the key with the map's own hasher, which is a
+                // different value for any `K` whose `Hashable::Hasher` is not `RegistryHasher`.
+                let (_, v) = match shard_write.raw_entry_mut().from_key_hashed_nocheck(hash, key) {
+                    RawEntryMut::Occupied(entry) => entry.into_key_value(),
+                    RawEntryMut::Vacant(entry) => entry.insert_with_hasher(
+                        hash,
+                        key.clone(),
+                        self.storage.histogram(key),
+                        |k| k.hashable(),
+                    ),
+                };
 
                 v
             };
